@@ -213,6 +213,17 @@ def slice_base(e):
     return e
 
 
+def len_base(e):
+    """the collection whose length `e` is (`v.len()` of a Vec or slice, or a slice-length term), else None"""
+    while isinstance(e, tuple) and e[0] in ("ref", "deref"):
+        e = e[1]
+    if isinstance(e, tuple) and e[0] == "len":
+        return slice_base(e[1])
+    if isinstance(e, tuple) and e[0] == "call" and len(e[3]) == 1 and e[1] in ("std::vec::Vec::<T, A>::len", "core::slice::<impl [T]>::len"):
+        return slice_base(e[3][0])
+    return None
+
+
 def ordering_const(e):
     """-1/0/1 for a constant std::cmp::Ordering value (a unit-variant aggregate or a promoted constant), else None"""
     if e[0] == "agg" and e[1] == "adt" and e[2].startswith("std::cmp::Ordering::"):
@@ -262,9 +273,9 @@ class Models:
                 for i, a in enumerate(args):
                     mapping[("param", i + 2)] = a
                 outs = []
-                for q in qs:
-                    q2 = subst_path(q, mapping, site[1], site=site)
-                    q2 = simplify_path(q2, known)
+                from .sym import expand_deferred
+                for q2 in [x for q in qs for x in expand_deferred(subst_path(q, mapping, site[1], site=site), F, True, getattr(self.w, 'inline_all', False), self.w.depth)]:
+                    q2 = simplify_path(q2, known, F.adts)
                     if q2 is None:
                         continue
                     kn = {}
@@ -280,15 +291,22 @@ class Models:
                 if qs is not None:
                     mapping = {("param", i + 1): x for i, x in enumerate(args)}
                     outs = []
-                    for q in qs:
-                        q2 = simplify_path(subst_path(q, mapping, site[1], site=site), known)
+                    # what the body's generic parameter names stand for where this function item was named
+                    gmap = None
+                    names = F.fns[fid].j.get("generics")
+                    ta = g[4] if len(g) > 4 else None
+                    if names is not None and ta is not None and len(names) == len(ta) and all(isinstance(x, str) for x in ta):
+                        gmap = {n: x for n, x in zip(names, ta) if n != x}
+                    from .sym import expand_deferred, subst_generics_path
+                    for q2 in [x for q in qs for x in expand_deferred(subst_path(subst_generics_path(q, gmap) if gmap else q, mapping, site[1], site=site), F, True, True, self.w.depth)]:
+                        q2 = simplify_path(q2, known, F.adts)
                         if q2 is None:
                             continue
                         kn = {}
                         for c in q2.conds:
                             kn.update(known_of(c))
                         from .canonsum import concrete_instantiation
-                        outs.append(Out([(c[0], c[1]) for c in q2.conds], [("inlined", fid, tuple(args), site[1], concrete_instantiation(g[2], fid))] + q2.events,
+                        outs.append(Out([(c[0], c[1]) for c in q2.conds], [("inlined", fid, tuple(args), site[1], None if gmap is not None else concrete_instantiation(g[2], fid))] + q2.events,
                                         q2.ret if q2.end == "return" else None, kn, q2.end))
                     return outs
             ce = ("call", g[1], g[2], tuple(args), site)
@@ -434,6 +452,10 @@ class Models:
                 return [Out([], [], ERR(r[3][0]))]
             if r[0] == "agg" and r[1] == "adt" and r[2] == OPT + "::None":
                 return [Out([], [], NONE)]
+        # ---- unsigned checked_sub: None exactly when a < b, else Some(a - b) ----
+        if path.startswith("core::num::<impl u") and n == "checked_sub" and len(a) == 2:
+            lt = ("binop", "Lt", a[0], a[1])
+            return [Out(c, [], NONE if v else SOME(("binop", "Sub", a[0], a[1])), k) for v, c, k in split_bool(lt, known)]
         # ---- slices: the accessors are defined by the length of the slice (the same conditions a slice pattern tests) ----
         if path.startswith("core::slice::<impl [T]>::") and a:
             sl = slice_base(a[0])
@@ -453,6 +475,11 @@ class Models:
             if n == "is_empty" and len(a) == 1:
                 return [Out([], [], ("binop", "Eq", LEN, ("const", "usize", "0_usize", 0)))]
             if n == "get" and len(a) == 2 and "::get::<usize>" in (full or ""):
+                ix = a[1]
+                if ix[0] == "binop" and ix[1] == "Sub" and len_base(ix[2]) == sl and ix[3][0] == "const" and isinstance(ix[3][3], int) and ix[3][3] >= 1 and \
+                        known.get(("binop", "Lt", ix[2], ix[3])) == ("eq", 0):
+                    # v.get(v.len() - k) where v.len() >= k is established: the k-th element from the end
+                    return [Out([], [], SOME(("ref", ("index", deref(sl), ("const", "usize", "-%d" % ix[3][3], -ix[3][3])), False)))]
                 lt = ("binop", "Lt", a[1], LEN)
                 return [Out(c, [], SOME(("ref", ("index", deref(sl), a[1]), False)) if v else NONE, k) for v, c, k in split_bool(lt, known)]
         # ---- comparing an Ordering with a constant Ordering is a test of its discriminant ----
@@ -597,6 +624,19 @@ class Models:
         elif n in ("is_ok", "is_err") and len(a) == 1:
             for v, c, k in sp():
                 outs.append(Out(c, [], const_bool((v == "Ok") == (n == "is_ok")), k))
+        elif n == "copied" and len(a) == 1:
+            for v, c, k in sp():
+                outs.append(Out(c, [], OK(deref(PO())) if v == "Ok" else ERR(PE()), k))
+        elif n == "or" and len(a) == 2:
+            for v, c, k in sp():
+                outs.append(Out(c, [], OK(PO()) if v == "Ok" else a[1], k))
+        elif n == "and" and len(a) == 2:
+            for v, c, k in sp():
+                outs.append(Out(c, [], a[1] if v == "Ok" else ERR(PE()), k))
+        elif n == "as_ref" and len(a) == 1:
+            ro = deref(r)
+            for v, c, k in split_enum(ro, RES, known):
+                outs.append(Out(c, [], OK(("ref", payload(ro, "Ok"), False)) if v == "Ok" else ERR(("ref", payload(ro, "Err"), False)), k))
         else:
             return None
         return outs
@@ -615,7 +655,7 @@ def known_of(c):
     return {d: ("eq", v)}
 
 
-def simplify_path(p, known):
+def simplify_path(p, known, adts=None):
     """after substitution: drop a path whose conditions contradict aggregates built by the caller or facts already
     known; remove conditions that are decided"""
     from .sym import Path
@@ -629,6 +669,10 @@ def simplify_path(p, known):
             for nm, dv in VARIANTS.get(enum, ()):
                 if nm == vname:
                     val = dv
+            if val is None and adts and enum in adts:           # a workspace enum built by the caller
+                for vv in adts[enum].get("variants", ()):
+                    if vv.get("name") == vname and isinstance(vv.get("discr"), int):
+                        val = vv["discr"]
         elif d[0] == "const" and isinstance(d[3], int):
             val = d[3]
         if val is None and d in kn:
